@@ -249,6 +249,12 @@ theorem sim_step {s : State} {σ : Store} (h : Sim s σ) (st : Stmt) :
     cases σ.val x with
     | none => rfl
     | some r => simp only [Option.map_some, sort_ofRows]
+  | unique x =>
+    apply sim_stepNew h
+    rw [h.arr x]
+    cases σ.val x with
+    | none => rfl
+    | some r => simp only [Option.map_some, Option.bind_some, unique_ofRows]
   | cumsum x =>
     apply sim_stepNew h
     rw [h.arr x]
